@@ -34,6 +34,8 @@ properties! {
     "C08" => c08,
     "C09" => c09,
     "C10" => c10,
+    "C11" => c11,
+    "C12" => c12,
     "C06" => c06,
     "C19" => c19,
 }
